@@ -24,12 +24,16 @@ def _apalache(tla_dir, module: str, init: str, length: int, timeout: int) -> tup
     out = WORK / f"apa-{module}-{os.getpid()}"
     cmd = ["apalache-mc", "check", "--cinit=ConstInit", f"--init={init}", "--inv=IndInv",
            f"--length={length}", f"--out-dir={out}", f"{module}.tla"]
+    tmpd = WORK / f"apa-tmp-{os.getpid()}"
+    tmpd.mkdir(parents=True, exist_ok=True)
+    env = dict(os.environ, JAVA_IO_TMPDIR=str(tmpd), TMPDIR=str(tmpd))     # the parser's scratch files
     try:
-        p = subprocess.run(cmd, cwd=tla_dir, capture_output=True, text=True, timeout=timeout)
+        p = subprocess.run(cmd, cwd=tla_dir, capture_output=True, text=True, timeout=timeout, env=env)
     except subprocess.TimeoutExpired as exc:
         raise Machinery(f"apalache timed out on {module} ({init})") from exc
     finally:
         shutil.rmtree(out, ignore_errors=True)
+        shutil.rmtree(tmpd, ignore_errors=True)
         try:
             os.rmdir(os.path.join(tla_dir, "tmp"))      # apalache leaves an empty directory behind
         except OSError:
